@@ -280,7 +280,7 @@ func init() {
 		Rule: "reference-model monitor: generated programs run through bcl.Interpret and through an independent tree-walking evaluator; printed lines, " +
 			"field values incl. Go dynamic type (float bit-exact), runtime-error class and line:column compared. Fixed list: every operator x operand-kind cell over a 29-value pool " +
 			"(via literal, variable and field) and all ordered operator triples; then random typed expression trees (depth <= 5, hostile literal spellings, redundant parentheses, assignments in operands). " +
-			"distinct = hash of source text; non-trivial = reference verdict specified (not in a DESIGN §5.3 zone) and >= 1 operator executed Every call gets a private copy of the source that is overwritten as soon as the call returns (results must not alias the caller's buffer).",
+			"distinct = hash of source text; non-trivial = reference verdict specified (not in a DESIGN §5.3 zone) and >= 1 operator executed Every call gets a private copy of the source that is overwritten as soon as the call returns (results must not alias the caller's buffer). One call in 16 is preceded by a library call of another kind (EarlierCall). Float literals also in long plain notation (up to 70 zeros behind the dot, 40 digits before it).",
 		Assumptions:   []string{"DESIGN §5.4 is the language definition; §5.3 zones give no verdict", "fmt and strconv of the Go standard library format/parse numbers as documented"},
 		MinNontrivial: 1000,
 		Run: func(c *core.Ctx) {
@@ -496,7 +496,7 @@ func init() {
 		Rule: "reference-model monitor on scope-centred programs: 1-14 toplevel statements, blocks nested to 5, names drawn from a pool of 4 so that shadowing, re-declaration, " +
 			"'var x = x+1', variable/field name reuse and embedded assignments are frequent; 6% of programs carry an injected static error (duplicate declaration, undefined name at toplevel). " +
 			"The reference has an environment chain and no slots. Compared: compile outcome and position of the first diagnostic, output, blocks, runtime-error class and line:column. " +
-			"distinct = hash of source; non-trivial = specified verdict and >= 1 declaration executed or a static error predicted Also: through the VM hook, the operand-stack depth right after every executed print must equal the number of variables the reference has alive there; identifiers of 63..256 bytes and names starting with '_'; 127..300 filler variables in front of 1 in 25 programs (more than 128 / 240 live locals); pairs of equal-length names colliding under a common 32-bit string hash (internal/lang/collide_table.go) as variable/variable, variable/field and variable/unknown name; chains of blocks nested 1..16 deep with variables declared, shadowed and re-read at every level; variables named TYPE and NAME.",
+			"distinct = hash of source; non-trivial = specified verdict and >= 1 declaration executed or a static error predicted Also: through the VM hook, the operand-stack depth right after every executed print must equal the number of variables the reference has alive there; identifiers of 63..256 bytes and names starting with '_'; 127..300 filler variables in front of 1 in 25 programs (more than 128 / 240 live locals); pairs of equal-length names colliding under a common 32-bit string hash (internal/lang/collide_table.go) as variable/variable, variable/field and variable/unknown name; chains of blocks nested 1..16 deep with variables declared, shadowed and re-read at every level; variables named TYPE and NAME. Also 80 programs that introduce 100..9000 names nobody used before (unique per case) around variables that stay in use.",
 		Assumptions:   []string{"DESIGN §5.4 scoping rules are the language definition"},
 		MinNontrivial: 1000,
 		Run: func(c *core.Ctx) {
@@ -547,7 +547,7 @@ func init() {
 		Rule: "reference-model monitor on block-centred programs: toplevel and nested blocks (depth <= 4), repeated types and names, names needing escapes, fields re-assigned, " +
 			"fields named like children / variables / TYPE / NAME, duplicate child keys, runtime errors after k completed blocks; deep comparison of []Block " +
 			"(count, order, Type, Name, exact key set, values with Go dynamic type, children under type / type.name), of output and of the error. " +
-			"distinct = hash of source; non-trivial = specified verdict and >= 1 block opened Also: a third of the programs contain bind statements (the result list must not be disturbed); chains of blocks nested 1..16 deep; block names and strings spelled like numbers, like TYPE / NAME, ending in a dot; long identifiers. Every third program is also parsed once and executed three times (each execution must give the reference's blocks, binding and error); in all reference checks the result of the previous call is compared with its reference once more after the next call has run (results belong to the caller). When the program yields a binding the harness goes on to Bind it (into a struct type derived from the bound block and into one that does not fit) and then compares the returned blocks and binding with the reference once more.",
+			"distinct = hash of source; non-trivial = specified verdict and >= 1 block opened Also: a third of the programs contain bind statements (the result list must not be disturbed); chains of blocks nested 1..16 deep; block names and strings spelled like numbers, like TYPE / NAME, ending in a dot; long identifiers. Every third program is also parsed once and executed three times (each execution must give the reference's blocks, binding and error); in all reference checks the result of the previous call is compared with its reference once more after the next call has run (results belong to the caller). When the program yields a binding the harness goes on to Bind it (into a struct type derived from the bound block and into one that does not fit) and then compares the returned blocks and binding with the reference once more. Also: at each implementation limit (14..17 nested blocks, 1021..1024 variables) every kind of statement and runtime event, behind a completed toplevel block that must be returned whatever happens; named blocks among hundreds to thousands of constants; two named children 0..1200 constants apart.",
 		Assumptions:   []string{"DESIGN §5.4 block rules are the language definition"},
 		MinNontrivial: 1000,
 		Run: func(c *core.Ctx) {
@@ -883,7 +883,9 @@ func c03Fixed(c *core.Ctx, run func(i int64, p *lang.Program, tag string)) int64
 	// constants between them: every distance, so every pair of constant numbers up to the two-byte operand class
 	for n := 0; n <= 1200; n++ {
 		if c.Mine(i) {
-			asg := func(k string, v int) *lang.Stmt { return &lang.Stmt{Kind: lang.SExpr, E: lang.Assign(k, lang.Lit(lang.IntLit(v)))} }
+			asg := func(k string, v int) *lang.Stmt {
+				return &lang.Stmt{Kind: lang.SExpr, E: lang.Assign(k, lang.Lit(lang.IntLit(v)))}
+			}
 			top := &lang.Stmt{Kind: lang.SDef, Name: "top"}
 			top.Body = append(top.Body, &lang.Stmt{Kind: lang.SDef, Name: "t", BlockName: lang.StrLit("first"), Body: []*lang.Stmt{asg("a", 1)}})
 			for f := 0; f < n; f++ {
@@ -905,7 +907,7 @@ func init() {
 		Level: "exploration",
 		Rule: "reference-model monitor: fixed product selector {none,1,first,last,all} x target {struct,slice} x 0-4 candidate blocks x other-type blocks before/between x 0-2 candidates defined after the first bind x 1-3 bind statements " +
 			"(all cases), then random block programs with bind statements anywhere (also inside blocks). Compared: Binding kind, blocks and order; warnings (count, line:column) on the log writer; runtime-error class and position. " +
-			"distinct = hash of source; non-trivial = specified verdict and >= 1 bind executed Also: binds inside block bodies; unknown selectors (01 001 0x1 1.0 2 \"1\" one First ...) and unknown targets as compile errors at that token; block types spelled like selector / target words or differing only in case; results with 200..1000 toplevel blocks and binds in between; 65535..65793 blocks of the bound type under every selector; selectors spelled like targets and targets spelled like selectors; a failing log writer must not make a repeated bind fail.",
+			"distinct = hash of source; non-trivial = specified verdict and >= 1 bind executed Also: binds inside block bodies; unknown selectors (01 001 0x1 1.0 2 \"1\" one First ...) and unknown targets as compile errors at that token; block types spelled like selector / target words or differing only in case; results with 200..1000 toplevel blocks and binds in between; 65535..65793 blocks of the bound type under every selector; selectors spelled like targets and targets spelled like selectors; a failing log writer must not make a repeated bind fail. Also: 5..300 bind statements in one run (toplevel and inside blocks, warnings counted); every form of bind executed at 14..17 nested blocks and next to 1021..1024 live variables.",
 		Assumptions:   []string{"DESIGN §5.4 bind rules are the language definition"},
 		MinNontrivial: 1000,
 		Run: func(c *core.Ctx) {
